@@ -1,11 +1,11 @@
-\* quick: <= 3 tracks x <= 2 events, three tick patterns, identical channel messages in all tracks
+\* quick: <= 3 tracks x <= 2 events, ticks <<0,0>> / <<1,1>> per track, the same channel message everywhere, meta
 \* atomic Player actions + ghost acceptor: stable merge, exactly once, no meta, no deadlock, acceptor complete
 CONSTANTS
   NT = 3
   NE = 2
   MaxNow = 1
-  Kinds <- KindsNoB
-  TimePats <- Pats3
+  Kinds <- KindsAM
+  TimePats <- Pats3q
   Sels <- SelAll
   PortMaps <- PMmixed
 INIT Init
